@@ -20,12 +20,12 @@ Arguments OErr {A} _.
 Definition mobs := (nat * nat * nat * list nat)%type.
 
 Record obs := mkObs {
-  o_loads : list nat;                       (* per add_molecule_top call: 0 = accepted, else class *)
-  o_iter : robs (list mobs);                (* list(System) *)
+  o_tab : list mobs;                        (* the distinct molecules seen; the fields below index it *)
+  o_iter : robs (list nat);                 (* list(System) *)
   o_len : nat;                              (* len(System) *)
   o_comp : list (nat * nat);                (* System.composition items *)
-  o_items : list (Z * robs mobs);           (* System[i] *)
-  o_slices : list ((option Z * option Z * option Z) * robs (list mobs))   (* System[a:b:c] *)
+  o_items : list (Z * robs nat);            (* System[i] *)
+  o_slices : list ((option Z * option Z * option Z) * robs (list nat))   (* System[a:b:c] *)
 }.
 
 Definition gfile := list (nat * nat * list nat).    (* (resid, resname, atom names) per residue *)
@@ -62,6 +62,28 @@ Definition first_bad (l : list nat) : nat :=
 Definition cmp_list (f : gfile) (st : sys) (m : res (list inst)) (o : robs (list mobs)) : nat :=
   cmp_res (list_eqb mobs_eqb) (let* l := m in mapM (describe f st) l) o.
 
+(* observations that refer to the table of molecules *)
+Definition resolve (tab : list mobs) (o : robs nat) : option (robs mobs) :=
+  match o with
+  | OErr c => Some (OErr c)
+  | OOk i => match nth_error tab i with Some m => Some (OOk m) | None => None end
+  end.
+Fixpoint resolve_all (tab : list mobs) (l : list nat) : option (list mobs) :=
+  match l with
+  | [] => Some []
+  | i :: t => match nth_error tab i, resolve_all tab t with
+              | Some m, Some r => Some (m :: r)
+              | _, _ => None
+              end
+  end.
+Definition resolve_list (tab : list mobs) (o : robs (list nat)) : option (robs (list mobs)) :=
+  match o with
+  | OErr c => Some (OErr c)
+  | OOk l => match resolve_all tab l with Some r => Some (OOk r) | None => None end
+  end.
+Definition cmp_list_t (f : gfile) (st : sys) (tab : list mobs) (m : res (list inst)) (o : robs (list nat)) : nat :=
+  match resolve_list tab o with Some o' => cmp_list f st m o' | None => 9 end.
+
 Definition comp_agree (m : list (nat * nat)) (o : list (nat * nat)) : bool :=
   (length m =? length o) &&
   forallb (fun p => existsb (fun q => pair_eqb p q) o) m.
@@ -71,27 +93,30 @@ Definition tops_of (tops : list top) (ord : list nat) : res (list top) :=
 
 Definition chk_views (f : gfile) (v : groview) (st : sys) (o : obs) : nat :=
   first_bad (
-    cmp_list f st (sys_iter v st) (o_iter o) ::
+    cmp_list_t f st (o_tab o) (sys_iter v st) (o_iter o) ::
     (if sys_len st =? o_len o then AGREE else DISAGREE) ::
     (match composition st with Ok c => if comp_agree c (o_comp o) then AGREE else DISAGREE
                              | Err _ => ERRMISMATCH end) ::
-    map (fun io => cmp_res mobs_eqb (let* x := sys_getitem v st (fst io) in describe f st x) (snd io))
+    map (fun io => match resolve (o_tab o) (snd io) with
+                   | Some o' => cmp_res mobs_eqb (let* x := sys_getitem v st (fst io) in describe f st x) o'
+                   | None => 9 end)
         (o_items o) ++
-    map (fun so => match fst so with (a, b, c) => cmp_list f st (sys_getslice v st a b c) (snd so) end)
+    map (fun so => match fst so with (a, b, c) => cmp_list_t f st (o_tab o) (sys_getslice v st a b c) (snd so) end)
         (o_slices o)).
 
-Definition chk_one (f : gfile) (tops : list top) (ord : list nat) (o : obs) : nat :=
+Definition chk_one (f : gfile) (tops : list top) (ord : list nat) (loads : list nat) (o : obs) : nat :=
   match view_of (residues_of f), tops_of tops ord with
   | Ok v, Ok ts =>
     let '(st, outs) := load_session v (sys_init v) ts in
     let codes := map (fun x => match x with None => 0 | Some e => err_code e end) outs in
-    if list_eqb Nat.eqb codes (o_loads o) then chk_views f v st o else ERRMISMATCH
+    if list_eqb Nat.eqb codes loads then chk_views f v st o else ERRMISMATCH
   | _, _ => 9
   end.
 
-(* one generated file, its candidate topologies, and groups (loading orders, common observation) *)
-Definition chk_sys (f : gfile) (tops : list top) (groups : list (list (list nat) * obs)) : nat :=
-  first_bad (flat_map (fun g => map (fun ord => chk_one f tops ord (snd g)) (fst g)) groups).
+(* one generated file, its candidate topologies, and groups ((loading order, outcome of each
+   add_molecule_top call: 0 = accepted, else exception class) list, common observation) *)
+Definition chk_sys (f : gfile) (tops : list top) (groups : list (list (list nat * list nat) * obs)) : nat :=
+  first_bad (flat_map (fun g => map (fun ol => chk_one f tops (fst ol) (snd ol) (snd g)) (fst g)) groups).
 
 (* System(fgro, *ftops): the constructor either raises the class of the first refused topology or
    gives a system whose molecules are observed *)
